@@ -112,6 +112,27 @@ func c16DeployExec(s verifc16.Scn) string {
 			fault = op.Fault
 		}
 	}
+	// a scenario is the history of an operator process of its own (see verifc16.NewEpoch)
+	verifc16.NewEpoch()
+	// what the same process has served before for other Packages, each against an API of its own
+	for i, w := range s.Warm {
+		if len(w) != 3 || w[0] < 0 || w[0] >= len(s.Pkgs) {
+			return "BAD-SCN"
+		}
+		wc := &verifc16.Client{Scheme_: testScheme, Uniq: "1"}
+		raw := &packagetypes.RawPackage{Files: verifc16.Files(s.Pkgs[w[0]], w[0], s.Scope)}
+		if s.Scope == "cluster" {
+			p := &adapters.GenericClusterPackage{}
+			p.Name, p.UID, p.Generation = fmt.Sprintf("w%d", i), types.UID(fmt.Sprintf("w%d-uid", i)), 1
+			p.Spec.Image, p.Spec.Config, p.Spec.Component = verifc16.ImageName(w[0]), verifc16.ConfigRaw(w[1]), verifc16.ComponentName(w[2])
+			_ = NewClusterPackageDeployer(wc, testScheme, nil).Deploy(context.Background(), p, raw, *verifc16.PackageEnv(s.Env))
+		} else {
+			p := &adapters.GenericPackage{}
+			p.Name, p.Namespace, p.UID, p.Generation = "p", fmt.Sprintf("w%d", i), types.UID(fmt.Sprintf("w%d-uid", i)), 1
+			p.Spec.Image, p.Spec.Config, p.Spec.Component = verifc16.ImageName(w[0]), verifc16.ConfigRaw(w[1]), verifc16.ComponentName(w[2])
+			_ = NewPackageDeployer(wc, wc, testScheme, nil).Deploy(context.Background(), p, raw, *verifc16.PackageEnv(s.Env))
+		}
+	}
 	c := &verifc16.Client{Scheme_: testScheme, Uniq: s.Uniq, OD: c16OD(s.Scope, s.Od)}
 	var (
 		d      *PackageDeployer
@@ -155,7 +176,16 @@ func c16DeployTags(s verifc16.Scn, out string) []string {
 	tags := []string{"scope=" + s.Scope, "uniq=" + s.Uniq, "od=" + s.Od, "prior=" + s.Prior}
 	if len(s.Spec) == 3 && s.Spec[0] < len(s.Pkgs) {
 		p := s.Pkgs[s.Spec[0]]
-		tags = append(tags, "load="+p.Load, "render="+p.Render, fmt.Sprintf("cfg=%d", s.Spec[1]), fmt.Sprintf("comp=%d/%v", s.Spec[2], p.Comps))
+		tags = append(tags, "load="+p.Load, "render="+p.Render, fmt.Sprintf("cfg=%d", s.Spec[1]), fmt.Sprintf("comp=%d/%v", s.Spec[2], p.Comps),
+			"schema="+p.Schema, fmt.Sprintf("warm=%d", len(s.Warm)))
+		for _, w := range s.Warm {
+			if len(w) == 3 && w[0] >= 0 && w[0] < len(s.Pkgs) {
+				q := s.Pkgs[w[0]]
+				if (q.Name != "" && q.Name == p.Name || w[2] == 1 && s.Spec[2] == 1) && q.Schema != p.Schema {
+					tags = append(tags, "warm:other-version-other-schema")
+				}
+			}
+		}
 		for _, c := range p.Cons {
 			tags = append(tags, "con="+c)
 		}
@@ -292,10 +322,49 @@ func TestVerifC16Deploy(t *testing.T) {
 			}
 		}
 	}
+	// 2c. exhaustive: every config schema x every config x ObjectDeployment absent / present, alone and after
+	//     the same process has admitted, for another Package, a config against ANOTHER version of the package
+	//     (same manifest name, every other schema; root package and component)
+	for _, scope := range []string{"ns", "cluster"} {
+		for _, sb := range verifc16.Schemas {
+			for cfg := 0; cfg <= 5; cfg++ {
+				for _, od := range []string{"", "old"} {
+					for _, comp := range []int{0, 1} {
+						one := verifc16.Pkg{Load: "ok", Render: "ok", Comps: true, Name: "f", Schema: sb}
+						run(verifc16.Scn{Scope: scope, Env: verifc16.Env{K8sNew: true}, Uniq: "1", Od: od,
+							Pkgs: []verifc16.Pkg{one}, Spec: []int{0, cfg, comp}, Ops: pass("")})
+						n1++
+						for _, sa := range verifc16.Schemas {
+							for _, wcfg := range []int{0, 1, 3} {
+								if scope == "cluster" && wcfg != 1 {
+									continue
+								}
+								other := verifc16.Pkg{Load: "ok", Render: "ok", Comps: true, Name: "f", Schema: sa}
+								run(verifc16.Scn{Scope: scope, Env: verifc16.Env{K8sNew: true}, Uniq: "1", Od: od,
+									Pkgs: []verifc16.Pkg{other, one}, Spec: []int{1, cfg, comp}, Warm: [][]int{{0, wcfg, comp}}, Ops: pass("")})
+								n1++
+							}
+						}
+					}
+				}
+			}
+		}
+	}
 	r.Extra["exhaustive_count"] = n1
 	// 3. random: arbitrary constraint lists and everything else at once
 	n := r.Pick(4000, 50000)
 	for i := 0; i < n; i++ {
 		run(verifc16.RandomScn(r.Rng, "deploy"))
+	}
+	// 4. random: versions of one package with random schemas, 0-3 earlier Deploy calls of the same process
+	n = r.Pick(2000, 25000)
+	for i := 0; i < n; i++ {
+		s := verifc16.RandomVersionScn(r.Rng)
+		s.More, s.Ops = nil, pass("")
+		s.Od = []string{"", "", "old", "empty", "prev"}[r.Rng.Intn(5)]
+		for k := r.Rng.Intn(4); k > 0; k-- {
+			s.Warm = append(s.Warm, []int{r.Rng.Intn(len(s.Pkgs)), r.Rng.Intn(5), r.Rng.Intn(2)})
+		}
+		run(s)
 	}
 }
